@@ -24,11 +24,19 @@ EXPLANATION = ("Theorems C11_* prove, for every script whose answers lie in the 
                "bootstrap_sample. The correspondence run executes the real bootstrap_sample under a scripted "
                "RNG (np.random.binomial/poisson/choice/normal patched, answers recorded), feeds the same answers "
                "to the model and compares the request traces exactly (p/lam within 1e-12) and the samples exactly; "
-               "the Lean spec predicates are evaluated on the implementation's own samples and request parameters.")
+               "the Lean spec predicates are evaluated on the implementation's own samples and request parameters. "
+               "Unbiasedness: SA/Model/SamplingM.lean writes _sample_indices once over a monad; on scripts it is the model above "
+               "(c11u_sampleIndicesM_state), on expectation oracles satisfying SA.C11U.Lawful (linearity, normalisation, support, "
+               "textbook means) C11_unbiased proves mean multiplicity 1 and expected class/stratum sizes equal to the source's for "
+               "the program without at-least-one corrections, which coincides with the model on every script that triggers no "
+               "correction. Every sixth case also compares the exact expectation of the model under the true binomial/choice pmf "
+               "(driver op c11expect, tiny sources) with the mean of 1500 real bootstrap_sample calls (6 standard errors).")
 TRUSTED_BASE = ["Lean 4.33 kernel", "axioms propext/Classical.choice/Quot.sound only",
                 "hand-written models SA/Model/Rng.lean, SA/Model/Sampling.lean tied to /repo by this run",
                 "NumPy primitives by documented meaning: fancy indexing, np.repeat, np.arange, np.sort, and "
-                "that np.random.{binomial,poisson,choice} answer inside the textbook supports with the textbook means",
+                "that np.random.{binomial,poisson,choice} answer inside the textbook supports with the textbook means "
+                "(stated as the structure SA.C11U.Lawful, hypotheses of the C11_unbiased theorems; satisfiable: "
+                "c11u_simpleOracle_lawful)",
                 "harness (harness/common.py, harness/rng_script.py, props/c11.py) and driver parsing"]
 ASSUMPTIONS = ["score_analysis draws randomness only through np.random.binomial/poisson/choice/normal (checked: a run "
                "under the scripted RNG leaves the global RandomState untouched)",
@@ -125,6 +133,14 @@ def gen_one(rng, i, tier):
                  "script": {"seed": 1, "mode": ""}})
     runs.append({"method": "not_a_method", "strat": None, "smooth": False, "ratio": None,
                  "script": {"seed": 1, "mode": ""}})
+    # exact expectation (true binomial / uniform-choice pmf, driver op c11expect) against a Monte-Carlo estimate from the
+    # real code, on a tiny source with the case's shape (sizes clipped so that the exact sums stay small)
+    if i % 6 == 0:
+        strat_e = rng.choice([None, "by_label"])
+        cap, ecap = (3, 2) if strat_e else (2, 1)  # non-stratified: the exact sum runs over three more binomials
+        runs.append({"method": "expect", "strat": strat_e, "smooth": False, "ratio": None,
+                     "script": {"seed": rng.randrange(2**31), "mode": ""}, "sp": rng.random() < 0.5,
+                     "h": min(npos, cap), "k": min(nneg, cap), "ep": min(ep, ecap), "en": min(en, ecap), "n": 1500})
     # real global RNG
     for _ in range(3):
         m = rng.choice(methods + (["proportion"] if empty is None else []))
@@ -255,6 +271,38 @@ def build(inp) -> Case:
                                  f"{what}: custom sampler must be called once with the source and its result "
                                  f"returned (calls={len(calls)}, rng requests={len(rr.trace)})", _sig(run, "callable")))
             continue
+        # ---------------------------------------------------------------- exact expectation vs Monte-Carlo
+        if m == "expect":
+            h_, k_ = run["h"], run["k"]
+            if h_ == 0 or k_ == 0:  # np.bincount on an empty class is not interesting here
+                continue
+            what = (f"Scores(pos=arange({h_}), neg=arange({k_})-100, nb_easy_pos={run['ep']}, nb_easy_neg={run['en']})"
+                    f".bootstrap_sample(method={'single_pass' if run['sp'] else 'replacement'}, "
+                    f"stratified={run['strat']}) x {run['n']} under np.random.seed({run['script']['seed']})")
+            src_e = Scores(np.arange(h_, dtype=float), np.arange(k_, dtype=float) - 100.0, nb_easy_pos=run["ep"],
+                           nb_easy_neg=run["en"])
+            cfg_e = BootstrapConfig(sampling_method="single_pass" if run["sp"] else "replacement",
+                                    stratified_sampling=run["strat"])
+            np.random.seed(run["script"]["seed"])
+            tot, tot2, failed = np.zeros(h_ + k_ + 4), np.zeros(h_ + k_ + 4), None
+            for _ in range(run["n"]):
+                r = common.call(src_e.bootstrap_sample, cfg_e)
+                if r[0] == "exc":
+                    failed = r
+                    break
+                o_ = r[1]
+                row = np.concatenate([np.bincount(np.asarray(o_.pos).astype(int), minlength=h_)[:h_],
+                                      np.bincount((np.asarray(o_.neg) + 100.0).astype(int), minlength=k_)[:k_],
+                                      [len(o_.pos), len(o_.neg), int(o_.nb_easy_pos), int(o_.nb_easy_neg)]]).astype(float)
+                tot += row
+                tot2 += row * row
+            if failed is not None:
+                pre.append(Issue("PROPFAIL", "raises", f"{what}: raised {failed[1]}: {failed[2]}", _sig(run, "raises")))
+                continue
+            lines.append(line("c11expect", h=h_, k=k_, ep=run["ep"], en=run["en"],
+                              strat=int(run["strat"] == "by_label"), sp=int(run["sp"]), corr=1))
+            judges.append(("expect", run, what, None, (tot / run["n"]).tolist(), None))
+            continue
         wire_method = m if m in ("replacement", "single_pass", "dynamic", "proportion") else "unknown"
         cfg = BootstrapConfig(sampling_method=m, stratified_sampling=run["strat"], smoothing=run["smooth"],
                               ratio=run["ratio"])
@@ -326,6 +374,31 @@ def build(inp) -> Case:
     def judge(outs):
         iss = []
         for (kind, run, what, trace, o, keys), out in zip(judges, outs):
+            if kind == "expect":
+                # means of the multiplicities of every scored sample and of the four stratum sizes: exact (model, true pmf)
+                # against Monte-Carlo (real code); tolerance 6 standard errors from the EXACT variance plus 4/n
+                m1 = common.pfracs(out["pos1"]) + common.pfracs(out["neg1"]) + common.pfracs(out["size1"])
+                m2 = common.pfracs(out["pos2"]) + common.pfracs(out["neg2"]) + common.pfracs(out["size2"])
+                names = ([f"multiplicity of pos[{j}]" for j in range(run["h"])]
+                         + [f"multiplicity of neg[{j}]" for j in range(run["k"])]
+                         + ["len(pos)", "len(neg)", "nb_easy_pos", "nb_easy_neg"])
+                if out["mass"] != "1" or len(m1) != len(o):
+                    iss.append(Issue("ERR", "expect", f"{what}: malformed exact expectation {out}", "expect"))
+                    continue
+                claimed = [1] * (run["h"] + run["k"]) + [run["h"], run["k"], run["ep"], run["en"]]
+                for nm, a1, a2, est, tgt in zip(names, m1, m2, o, claimed):
+                    var = max(float(a2 - a1 * a1), 0.0)
+                    tol = 6.0 * (var / run["n"]) ** 0.5 + 4.0 / run["n"] if var > 0 else 1e-9
+                    if abs(est - float(a1)) > tol:
+                        # where the model's exact mean IS the unbiased value (no correction can fire, e.g. by_label +
+                        # replacement) a deviating sample mean contradicts the property itself; elsewhere it contradicts
+                        # the model of the corrections
+                        unb = a1 == tgt
+                        iss.append(Issue("PROPFAIL" if unb else "DISAGREE", "unbiased-mean" if unb else "expectation",
+                                         f"{what}: mean {nm} over {run['n']} samples = {est:.5f}, exact expectation "
+                                         f"of the model under the true binomial/choice pmf = {float(a1):.5f} (tolerance {tol:.5f})",
+                                         _sig(run, "unbiased-mean" if unb else "expectation")))
+                continue
             spec = {k[5:]: v for k, v in out.items() if k.startswith("spec.")}
             for clause, v in spec.items():
                 if v == "0":
